@@ -16,6 +16,15 @@
      frames    "one" | "many" (the body is several zstd frames / gzip members; its decoding is the concatenation,
                RFC 8878 3.1 / RFC 1952 2.2; sizes are those of the whole body)
      transfer  "cl" (Content-Length) | "chunked" (Transfer-Encoding: chunked through a real HTTP server)
+     srv       how the server was configured (make_wsgi_app), beyond having a cap or not:
+               "default" (compression_level left at its default: zstd + gzip produced and decoded)
+               | "none" (compression_level=None: responses are never compressed, requests are STILL decoded -- the
+               documented "decode-only" server) | "l22" (an explicit non-default zstd level)
+               | "nozstd" (VGI_HTTP_DISABLE_ZSTD=1: zstd neither produced nor decoded; the only server on which the
+               codec class "disabled" exists)
+               The statement quantifies over configurations: cap enforcement, decoding and the 415 / 400 / 413
+               mapping do not depend on whether or how strongly the server compresses its RESPONSES
+               (ServerConfigIrrelevant).
      route     the RPC route the body is posted to: "unary" | "init" | "exchange" | "upload" (/__upload_url__/init)
      mname     the method name in the URL: "plain" | "health_prefixed" (begins with the name of the cap-exempt health
                endpoint, e.g. /health_check, /healthz/init) | "health" (a stream method literally named health, so
@@ -64,6 +73,12 @@ Valid(c) ==
        /\ c.integ # "ok" => c.decl \in {"honest", "absent"} /\ c.dec \in {"lt", "bomb", "na"}
        /\ c.frames = "many" => c.integ = "ok" /\ c.decl \in {"honest", "absent"}
   /\ c.codec \notin Compressed => c.frames = "one"
+  /\ c.codec = "disabled" => c.srv = "nozstd"
+  /\ c.srv = "nozstd" => c.codec # "zstd"           \* there a zstd body IS the codec class "disabled"
+  \* the non-default server configurations are crossed with every size / declaration / integrity class on the plain
+  \* unary route with Content-Length framing
+  /\ (c.srv # "default" /\ c.codec # "disabled") =>
+        c.route = "unary" /\ c.mname = "plain" /\ c.transfer = "cl" /\ c.frames = "one"
   /\ c.mname = "health" => c.route \in {"init", "exchange"}
   /\ c.route = "upload" => c.mname = "plain"
   \* the framing detail (transfer, frame count, damage, lying declarations, bombs) is crossed with the unary route;
@@ -74,17 +89,19 @@ Valid(c) ==
 Space == [cap : Caps, codec : Codecs, enc : {"lt", "eq", "gt", "na"}, dec : {"lt", "eq", "gt", "bomb", "na"},
           decl : {"honest", "absent", "low", "high_in", "high_over", "na"},
           integ : {"ok", "corrupt", "truncated"}, frames : {"one", "many"}, transfer : {"cl", "chunked"},
-          route : {"unary", "init", "exchange", "upload"}, mname : {"plain", "health_prefixed", "health"}]
+          route : {"unary", "init", "exchange", "upload"}, mname : {"plain", "health_prefixed", "health"},
+          srv : {"default", "none", "l22", "nozstd"}]
 \* split for TLC's workers
 Seeds == {[cap |-> k, codec |-> d, enc |-> "na", dec |-> "na", decl |-> "na", integ |-> "ok", frames |-> "one",
-           transfer |-> "cl", route |-> r, mname |-> "plain"] :
+           transfer |-> "cl", route |-> r, mname |-> "plain", srv |-> "default"] :
             k \in Caps, d \in Codecs, r \in {"unary", "init", "exchange", "upload"}}
 Expand(p) == LET One(x) == {x}
                  Sub == [cap : One(p.cap), codec : One(p.codec), route : One(p.route), enc : {"lt", "eq", "gt", "na"},
                          dec : {"lt", "eq", "gt", "bomb", "na"},
                          decl : {"honest", "absent", "low", "high_in", "high_over", "na"},
                          integ : {"ok", "corrupt", "truncated"}, frames : {"one", "many"},
-                         transfer : {"cl", "chunked"}, mname : {"plain", "health_prefixed", "health"}]
+                         transfer : {"cl", "chunked"}, mname : {"plain", "health_prefixed", "health"},
+                         srv : {"default", "none", "l22", "nozstd"}]
              IN {c \in Sub : Valid(c)}
 Cases == UNION {Expand(p) : p \in Seeds}
 
@@ -124,6 +141,8 @@ IdentityIsTransparent(c) ==      \* identity behaves exactly like no Content-Enc
   c.codec = "identity" => Admissible(c) = Admissible([c EXCEPT !.codec = "none"])
 SingleFaultExact(c) == Cardinality(Faults(c)) = 1 /\ ~LenientPass(c) => Cardinality(Admissible(c)) = 1
 TransferIrrelevant(c) == Admissible(c) = Admissible([c EXCEPT !.transfer = "cl"])
+ServerConfigIrrelevant(c) ==     \* response-compression settings never change what happens to a request body
+  c.codec # "disabled" => Admissible(c) = Admissible([c EXCEPT !.srv = "default"])
 RouteIrrelevant(c) == Admissible(c) = Admissible([c EXCEPT !.route = "unary", !.mname = "plain"])
 
 \* ---------------------------------------------------------------- judging what the real code did
